@@ -46,9 +46,12 @@ fn split_docs(buf: &[u8]) -> (Vec<Vec<u8>>, Vec<u8>) {
 
 struct Session { inp: DuplexStream, out: DuplexStream, shared: Shared, acc: Vec<u8>, task: tokio::task::JoinHandle<()> }
 
-async fn open(logging: bool) -> Session {
+async fn open(logging: bool) -> Session { open_with(logging, 1 << 22).await }
+
+/// `out_cap`: capacity of the pipe the plugin writes to (small = the node reads slowly: writes block)
+async fn open_with(logging: bool, out_cap: usize) -> Session {
     let (inp, plugin_in) = tokio::io::duplex(1 << 20);
-    let (plugin_out, out) = tokio::io::duplex(1 << 22);
+    let (plugin_out, out) = tokio::io::duplex(out_cap);
     let shared = Shared { log: logging, ..Default::default() };
     let st = shared.clone();
     let task = tokio::spawn(async move {
@@ -56,6 +59,8 @@ async fn open(logging: bool) -> Session {
             .with_logging(logging)
             .hook("slow", |p: crate::cln_plugin::Plugin<Shared>, v: Value| {
                 let tok = v["tok"].as_u64().unwrap_or(u64::MAX);
+                // a pad starting with 'E' is echoed in the reply (large replies: more than the writer buffers)
+                let echo = v["pad"].as_str().filter(|p| p.starts_with('E')).map(|p| p.to_string());
                 let (tx, rx) = oneshot::channel();
                 p.state().seen.lock().unwrap().push(tok);
                 p.state().gates.lock().unwrap().insert(tok, tx);
@@ -63,7 +68,7 @@ async fn open(logging: bool) -> Session {
                 async move {
                     let _ = rx.await;
                     if log { tracing::info!("handler {} finishing \u{00e9}\u{4e16}", tok); }
-                    if tok % 5 == 4 { Err(anyhow::anyhow!("handler error {}", tok)) } else { Ok(json!({"result": "continue", "tok": tok})) }
+                    if tok % 5 == 4 { Err(anyhow::anyhow!("handler error {}", tok)) } else if let Some(e) = echo { Ok(json!({"result": "continue", "tok": tok, "echo": e})) } else { Ok(json!({"result": "continue", "tok": tok})) }
                 }
             })
             .subscribe("ping", |p: crate::cln_plugin::Plugin<Shared>, v: Value| {
@@ -74,11 +79,11 @@ async fn open(logging: bool) -> Session {
         if let Ok(Some(plugin)) = b.start(st).await { let _ = plugin.join().await; }
     });
     let mut s = Session { inp, out, shared, acc: Vec::new(), task };
+    let rounds = if out_cap < 100_000 { 200 } else { 1 };   // a small pipe has to be read while the handshake replies are written
     s.inp.write_all(b"{\"jsonrpc\":\"2.0\",\"id\":\"m1\",\"method\":\"getmanifest\",\"params\":{\"allow-deprecated-apis\":false}}\n\n").await.unwrap();
-    settle().await;
+    for _ in 0..rounds { settle().await; drain(&mut s.out, &mut s.acc).await; }
     s.inp.write_all(b"{\"jsonrpc\":\"2.0\",\"id\":2,\"method\":\"init\",\"params\":{\"options\":{},\"configuration\":{\"lightning-dir\":\"/tmp\",\"rpc-file\":\"none\",\"startup\":true,\"network\":\"regtest\",\"feature_set\":{}}}}\n\n").await.unwrap();
-    settle().await;
-    drain(&mut s.out, &mut s.acc).await;
+    for _ in 0..rounds { settle().await; drain(&mut s.out, &mut s.acc).await; }
     s
 }
 
@@ -185,16 +190,66 @@ async fn dispatch_case(ctx: &mut Ctx, rng: &mut Rng, logging: bool) {
     s.task.abort();
 }
 
+/// the node reads the plugin's output slowly: replies pile up behind a blocked write while further
+/// requests keep arriving and handlers keep finishing; when the node finally reads, every call must
+/// have exactly one reply (C17, C06). Same `wd` protocol line as `dispatch_case`.
+async fn backpressure_case(ctx: &mut Ctx, rng: &mut Rng, logging: bool) {
+    let cap = *rng.pick(&[64usize, 200, 1024]);
+    let mut s = open_with(logging, cap).await;
+    let n = 3 + rng.below(6);
+    let mut acts: Vec<String> = Vec::new();
+    let mut calls: Vec<(u64, Value)> = Vec::new();
+    let mut pending: Vec<u64> = Vec::new();
+    let mut released: Vec<u64> = Vec::new();
+    let mut next = 0u64;
+    while next < n || !pending.is_empty() {
+        let do_recv = next < n && (pending.is_empty() || rng.coin(1, 2));
+        if do_recv {
+            let id = if rng.coin(1, 3) { 7 } else { next + 10 };
+            let pad = if rng.coin(1, 3) { format!("E{}", "e".repeat(8000 + rng.below(12000) as usize)) } else { "p".repeat(rng.below(3 * cap as u64) as usize) };
+            let mut m = msg_request(&json!(id), next, &pad); m.extend_from_slice(b"\n\n");
+            if s.inp.write_all(&m).await.is_err() { ctx.count("input-closed-by-plugin"); } settle().await;
+            acts.push(format!("r{}:{}", next, id)); calls.push((next, json!(id))); pending.push(next); next += 1;
+        } else {
+            let i = rng.below(pending.len() as u64) as usize; let t = pending.remove(i);
+            // under backpressure the request may not have been dispatched yet: the handler is released as soon as it exists
+            released.push(t);
+            settle().await;
+            acts.push(format!("c{}", t));
+        }
+        // handlers finish in the order of the `c` actions
+        while let Some(t) = released.first().copied() { let g = s.shared.gates.lock().unwrap().remove(&t); match g { Some(g) => { let _ = g.send(()); released.remove(0); settle().await; } None => break } }
+        // the node reads a little, sometimes
+        if rng.coin(1, 4) { let mut tmp = vec![0u8; 1 + rng.below(cap as u64) as usize]; if let Ok(Ok(k)) = tokio::time::timeout(std::time::Duration::from_millis(0), s.out.read(&mut tmp)).await { s.acc.extend_from_slice(&tmp[..k]); } settle().await; }
+    }
+    // the node now reads everything: until nothing has come for a long while and every handler was released
+    let mut quiet = 0;
+    for _ in 0..400_000 {
+        for _ in 0..6 { tokio::task::yield_now().await; }
+        while let Some(t) = released.first().copied() { let g = s.shared.gates.lock().unwrap().remove(&t); match g { Some(g) => { let _ = g.send(()); released.remove(0); settle().await; } None => break } }
+        let before = s.acc.len(); drain(&mut s.out, &mut s.acc).await;
+        if s.acc.len() == before && released.is_empty() { quiet += 1; if quiet > 60 { break; } } else { quiet = 0; }
+    }
+    let acc = s.acc.clone();
+    let v0 = ctx.n_viol;
+    let replies = check_output(ctx, &acc, &calls, "backpressure");
+    if ctx.n_viol > v0 && std::env::var("WIRE_DEBUG").is_ok() { eprintln!("BP cap={} acts={} out={:?} task_finished={}", cap, acts.join(" "), String::from_utf8_lossy(&acc[acc.len().saturating_sub(300)..]), s.task.is_finished()); }
+    let observed = replies.iter().map(|(id, _)| id.to_string()).collect::<Vec<_>>().join(" ");
+    ctx.case(&format!("wd {}", acts.join(" ")), &observed, true);
+    ctx.count("backpressure");
+    s.task.abort();
+}
+
 pub fn run(mut ctx: Ctx) {
     std::env::set_var("CLN_PLUGIN_LOG", "trace");
     let rt = tokio::runtime::Builder::new_current_thread().enable_all().start_paused(true).build().unwrap();
     let mut rng = Rng::new(ctx.seed);
     rt.block_on(async {
         let n = if ctx.thorough { 20000 } else { 1500 };
-        for _ in 0..n { framing_case(&mut ctx, &mut rng, false).await; dispatch_case(&mut ctx, &mut rng, false).await; }
+        for i in 0..n { framing_case(&mut ctx, &mut rng, false).await; dispatch_case(&mut ctx, &mut rng, false).await; if i % (if ctx.thorough { 4 } else { 12 }) == 0 { backpressure_case(&mut ctx, &mut rng, false).await; } }
         // last: one session with the plugin's own logging layer on (global subscriber, once per
         // process): log notifications are written concurrently with replies through the shared writer
-        framing_case(&mut ctx, &mut rng, true).await;
+        backpressure_case(&mut ctx, &mut rng, true).await;
     });
     ctx.finish(
         "streams of 1–6 valid JSON-RPC messages (requests with numeric/string/repeated ids, notifications; params with multi-byte UTF-8, escaped newlines, long padding; optional truncated tail) cut into chunks of 1..400 bytes with a bias to 1-byte chunks and cuts inside the separator; request/completion interleavings of 2–8 calls; non-trivial = more chunks than messages, or any dispatch case; distinct = distinct protocol line",
